@@ -191,13 +191,44 @@ def _ref_conformance(spec, world, full, steps):
     return compared, first_bad
 
 
+def _evaluates_feature(spec, w, seed):
+    """Does the feature evaluate at all (all steps and one step) on a two-path world?"""
+    try:
+        tiny = hw.build_world(dict(w, rows=[0, 1]))
+        with torch.no_grad():
+            f = hw.bind(hw.make_feature(spec, tiny, seed), tiny)
+            f.get(None)
+            f.get(0)
+        return True
+    except Exception:   # noqa: BLE001 - not applicable, by the library's own verdict
+        return False
+
+
+def _evaluates_model(m, w, seed):
+    try:
+        tiny = hw.build_world(dict(w, rows=[0, 1]))
+        kit = hw.make_hedger(m, tiny, seed)
+        with torch.no_grad():
+            kit.hedger.compute_hedge(tiny.d, hedge=tiny.hedge)
+        return True
+    except Exception:   # noqa: BLE001
+        return False
+
+
 @family
 def feature_tree(ctx, block):
     w = block["world"]
     T = w["T"]
     for spec in block["features"]:
-        if not hw.feature_supported(spec, w):
-            continue
+        # applicability is decided DYNAMICALLY: a (feature, derivative, underlier) combination outside the
+        # documented table is still in scope whenever it evaluates without raising; then it goes through
+        # the adaptedness oracles (no reference value is needed for those)
+        static_ok = hw.feature_supported(spec, w)
+        if not static_ok:
+            if not _evaluates_feature(spec, w, ctx.seed):
+                ctx.add("not_applicable_pairs")
+                continue
+            ctx.add("applicable_outside_documented_table")
         world = hw.build_world(w)   # fresh objects per feature
         N, n_sym, orig = world.N, world.n_sym, world.orig
         site = hw.site_of(spec)
@@ -230,7 +261,7 @@ def feature_tree(ctx, block):
             continue
         ctx.tick(2 * nodes, nontrivial=lookahead_nodes(full, orig, n_sym, T))
         # (1) literal adaptedness, all-steps evaluation
-        ftol = 0.0 if hw.is_exact(spec) else hw.tol(world.dtype)
+        ftol = 0.0 if (hw.is_exact(spec) and static_ok) else hw.tol(world.dtype)
         if world.full:
             core_bad = check_prefix_measurable(full, n_sym, T, atol=ftol, rtol=ftol)
         pairs = prefix_pairs(full, orig, n_sym, T, rtol=ftol, atol=ftol)
@@ -260,7 +291,7 @@ def feature_tree(ctx, block):
                           expected="equal values at step %d" % t,
                           block={"world": dict(w, rows=[int(orig[a]), int(orig[b])]), "features": [spec]})
         # (3) conformance with the documented function of the prefix
-        if block.get("conformance", True) and F == 1:
+        if block.get("conformance", True) and F == 1 and static_ok:
             n_cmp, bad = _ref_conformance(spec, world, full, steps)
             ctx.add("nodes_conformant_with_reference", n_cmp)
             if bad is not None:
@@ -281,7 +312,7 @@ def feature_tree(ctx, block):
                 full2 = f2.get(None)
                 steps2 = torch.cat([f2.get(t) for t in range(T)], dim=1)
             pos = torch.searchsorted(orig, world2.orig)
-            exact = hw.is_exact(spec)
+            exact = hw.is_exact(spec) and static_ok
             for mode, a2, a1 in (("get(None)", full2, full[pos]), ("get(t)", steps2, stacked[pos])):
                 ok = _close(a2, a1, exact)
                 ctx.tick(int(a2.size(0)))
@@ -313,10 +344,17 @@ def _mode(m):
 def hedge_tree(ctx, block):
     w, m = block["world"], block["model"]
     T = w["T"]
+    if block.get("probe"):
+        # outside the documented model x derivative table: in scope iff it evaluates
+        if not _evaluates_model(m, w, ctx.seed):
+            ctx.add("not_applicable_models")
+            ctx.tick(1)
+            return
+        ctx.add("applicable_outside_documented_table")
     world = hw.build_world(w)
     N, n_sym, orig, H = world.N, world.n_sym, world.orig, world.H
     kit = hw.make_hedger(m, world, ctx.seed)
-    hedger, exact = kit.hedger, kit.exact
+    hedger, exact = kit.hedger, kit.exact and not block.get("probe")
     grad = bool(block.get("grad"))
     site = "Hedger.compute_hedge"
     tag = f"{_mode(m)}:{m['model']}" + (":autograd" if grad else "")
@@ -390,6 +428,69 @@ def hedge_tree(ctx, block):
         ctx.sample({"family": "hedge_tree", "config": desc, "path": world.spot[r].tolist(),
                     "second_factor": None if world.second is None else world.second[r].tolist(),
                     "hedge": hedge[r].tolist()})
+
+
+@family
+def hedge_reuse(ctx, block):
+    """ONE Hedger object evaluates a sequence of complete path trees of the same shape (same n_paths,
+    same hedging instruments): tree A, tree B (the tree over the reversed alphabet: other prices, same
+    shape), A again, A again.  On every call: adaptedness, last == previous column, and the result equals
+    what a FRESH hedger gives on that tree (a position may depend on the market of the current
+    evaluation only, not on a previous one)."""
+    w, m = block["world"], block["model"]
+    T = w["T"]
+    seq = block.get("sequence", ["A", "B", "A", "A"])
+    variants = {"A": w, "B": dict(w, As=list(reversed(w["As"])))}
+    first = hw.build_world(w)
+    kit = hw.make_hedger(m, first, ctx.seed)
+    site = "Hedger.compute_hedge"
+    tag = f"{_mode(m)}:{m['model']}"
+    for k, name in enumerate(seq):
+        world = hw.build_world(variants[name])
+        N, n_sym, orig, H = world.N, world.n_sym, world.orig, world.H
+        desc = (f"model={m['model']} mode={_mode(m)} inputs={[hw.label(s) for s in kit.specs]} "
+                f"{w['ul']}/{w.get('kind')} H={H}; call #{k + 1} of the same Hedger object, trees {seq[: k + 1]}")
+        ok, hedge = _guard(ctx, site, "reuse:" + tag, desc, block,
+                           lambda: kit.hedger.compute_hedge(world.d, hedge=world.hedge))
+        if not ok:
+            return
+        fresh_world = hw.build_world(variants[name])
+        fresh = hw.make_hedger(m, fresh_world, ctx.seed)
+        ok, ref = _guard(ctx, site, "reuse:" + tag, desc, block,
+                         lambda: fresh.hedger.compute_hedge(fresh_world.d, hedge=fresh_world.hedge))
+        if not ok:
+            return
+        nodes, edges = node_counts(orig, n_sym, T)
+        ctx.add("states", nodes)
+        ctx.add("transitions", edges)
+        ctx.add("traces_validated_against_impl", N)
+        ctx.add("hedger_reuse_calls")
+        ctx.tick(nodes + N, nontrivial=(nodes + N) if k > 0 else 0)
+        if tuple(hedge.shape) != (N, H, T):
+            ctx.violation(site, f"reuse:shape:{tag}", f"hedge shape {tuple(hedge.shape)} ({desc})", block=block)
+            return
+        tol = 0.0 if kit.exact else hw.tol(world.dtype)
+        pairs = prefix_pairs(hedge.permute(0, 2, 1), orig, n_sym, T, rtol=tol, atol=tol)
+        for (t, a, b) in pairs[:1]:
+            ctx.violation(site, f"reuse:anticipates:{tag}",
+                          f"hedge[:, :, {t}] differs between two paths that agree up to step {t} ({desc})",
+                          observed={"path_a": world.spot[a].tolist(), "path_b": world.spot[b].tolist(),
+                                    "hedge_a": hedge[a].tolist(), "hedge_b": hedge[b].tolist()},
+                          expected=f"identical hedge ratios for steps 0..{t}", block=block)
+        same = (hedge[..., -1] == hedge[..., -2]) | (hedge[..., -1].isnan() & hedge[..., -2].isnan())
+        if not same.all():
+            ctx.violation(site, f"reuse:trades_at_maturity:{tag}", f"hedge[..., -1] != hedge[..., -2] ({desc})",
+                          block=block)
+        good = _close(hedge, ref, kit.exact)
+        if not good.all():
+            r = int((~good).flatten(1).any(1).nonzero()[0])
+            t = int((~good)[r].any(0).nonzero()[0])
+            ctx.violation(site, f"reuse:depends_on_previous_evaluation:{tag}",
+                          f"the hedge differs from the one a fresh hedger computes on the same tree, first at step "
+                          f"{t} on {int((~good).flatten(1).any(1).sum())}/{N} paths ({desc})",
+                          observed={"path": world.spot[r].tolist(), "hedge": hedge[r].tolist()},
+                          expected={"hedge": ref[r].tolist()}, block=block)
+        ctx.outcome(("reuse", tag, w["ul"], w.get("kind"), H, k, round(float(hedge.nan_to_num(nan=7.0).sum()), 9)))
 
 
 def _pl_at_maturity(ctx, block, hedge, tag, desc, grad, exact):
